@@ -21,6 +21,8 @@ CAUGHT = {
  'C18-heads-min-generation': ('./check C18 --tier quick', 'heads-n5-cand3: "candidate kept iff no other candidate descends from it" sat for 3 candidates on 5 positions. The quick tier as it stood (heads_pos on <=4 positions) MISSED it - the smallest instance needs 5 positions (two roots) - while the thorough tier (heads-n5*) caught it; the 3-candidate job on 5 positions was added to the quick tier'),
  'C06-unsimplified-unchanged-check': ('./check C06 --tier quick', 'same-AAABC-Diff and the other redundant-pair shapes: "an unedited conflicted file is recorded as exactly the original conflict" sat (solver verdict; store is a stub)'),
  'C16-remote-target-fastpath': ('./check C16 --tier quick', 'bookmarks-*-rconflictd/rconflictn and tags-*: "View.remote_views reads back identical" sat. MISSED by the check as it stood: its only conflict shape was add/add with an absent base; the change/delete and delete/change shapes (one absent add) were added. Also needed Itertools::at_most_one and iteration over &Option (exit 2 before)'),
+ 'C19-roots-window': ('./check C19 --tier quick', 'roots-n3: "position is yielded iff it is in the denoted set" sat for Roots({0,2}) on a 3-position graph with two roots (solver verdict over the private engine)'),
+ 'C39-lookahead-min-position': ('./check C39 --tier quick', 'graph-n4-all / graph-n4-skip: exactness of the edge set and "indirect edge: reached only through commits outside the shown set" sat for shown {0,1,3} with hidden single-parent commit 2 (solver verdict)'),
  'C44-exact-fit-zero-width': ('./check C44 --tier quick', '"text that already fits is returned unchanged" sat; reproduced natively'),
 }
 base = set(l.strip() for l in open('/tmp/baseline_names.txt')) if os.path.exists('/tmp/baseline_names.txt') else None
